@@ -58,6 +58,8 @@ def getitem(I, obj, idx):
         return frame_getitem(I, obj, idx)
     if isinstance(obj, GenVal):
         raise exc("TypeError")
+    if obj.__class__.__name__ == "STable":
+        return obj        # a column of the table behaves like the table for astype/assignment bookkeeping
     if isinstance(obj, Opaque) and getattr(obj, "getitem", None):
         return obj.getitem(I, obj, idx)
     if obj is None or is_numlike(obj):
@@ -239,6 +241,8 @@ def setitem(I, obj, idx, v, env, target):
         return
     if isinstance(obj, Opaque) and getattr(obj, "setitem", None):
         return obj.setitem(I, obj, idx, v)
+    if obj.__class__.__name__ == "STable":
+        return            # column assignment: number of rows unchanged
     raise Undecided(f"subscript store into {obj!r}")
 
 
